@@ -97,6 +97,8 @@ pub fn op_proto(name: &str, op: &Op) -> String {
 
 pub fn parse_out(op: &Op, resp: &str) -> Out {
   if resp == "bad-op" { return Out::Bad("bad-op".into()) }
+  // the checked model (Model/Checked.lean) reached a site where the Rust panics
+  if resp == "trap" { return Out::Panic("trap: checked model".into()) }
   let mut t = Toks::new(resp);
   let r: Result<Out, String> = (|| Ok(match op {
     Op::Src | Op::Buffer => Out::Text(t.bytes()?),
